@@ -96,14 +96,16 @@ theorem stuck_is_success (c : Config) (hv : c.valid = true) (hl : c.live = true 
     · exact deadlock_free_ooo_core hv hl h hstuck
   exact ⟨hf, fun i r hr => delivery_exact_core hv h hf i r hr⟩
 
+/-- lazy mailbox with the gate rule as found, one driving subscriber, message 1 sent before message 0 -/
+def oooLazyOldCfg : Config :=
+  { cap := none, lazy := true, gateRule := .lowest, drive := [true],
+    prog := [.item (some 1) (.plain 10), .item (some 0) (.plain 20)], workers := [], killers := [] }
+
 /-- the excluded combination is a real deadlock of the code as found: lazy mailbox, gate rule `lowest`,
 messages 1 then 0 — after `1` is buffered, `waiting_for = 0 <= lowest = 1` makes `_can_fetch` refuse for ever -/
 theorem lazy_out_of_order_old_rule_deadlock :
-    ∃ s, Reachable { cap := none, lazy := true, gateRule := .lowest, drive := [true],
-        prog := [.item (some 1) (.plain 10), .item (some 0) (.plain 20)], workers := [], killers := [] } s ∧
-      s.final = false ∧ s.enabled = [] := by
-  have hrun : ∃ s, run? (init { cap := none, lazy := true, gateRule := .lowest, drive := [true],
-        prog := [.item (some 1) (.plain 10), .item (some 0) (.plain 20)], workers := [], killers := [] })
+    ∃ s, Reachable oooLazyOldCfg s ∧ s.final = false ∧ s.enabled = [] := by
+  have hrun : ∃ s, run? (init oooLazyOldCfg)
       [.sender, .reader 0, .sender, .sender, .sender, .sender, .reader 0] = some s ∧ s.final = false ∧ s.enabled = [] := by
     decide
   obtain ⟨s, h1, h2, h3⟩ := hrun
